@@ -400,10 +400,9 @@ class Executor(Engine):
                 st2.env[name] = coerce(newd, obase.ty)
                 return st2
         if isinstance(tgt, ast.Subscript) and isinstance(tgt.value, ast.Attribute) and isinstance(tgt.value.value, ast.Name) \
-                and isinstance(getattr(st.env.get(tgt.value.value.id), 'ty', None), TRec) \
-                and tgt.value.attr in st.env[tgt.value.value.id].ty.fields:
-            # x.field[k] = v on a dictionary-valued (possibly Optional) record field
-            name, fld = tgt.value.value.id, tgt.value.attr
+                and self.field_of(st.env.get(tgt.value.value.id), tgt.value.attr):
+            # x.field[k] = v on a dictionary-valued (possibly Optional) record field (or on the property that IS that field)
+            name, fld = tgt.value.value.id, self.field_of(st.env.get(tgt.value.value.id), tgt.value.attr)
             owner = st.env[name]
             fty = owner.ty.fields[fld]
             base = V(fty, owner.ty.get(fld, owner.t))
@@ -471,10 +470,9 @@ class Executor(Engine):
             st2.env[nm] = V(dt, dt.mk(z3.Store(dt.has(d.t), k.t, True), z3.Store(dt.at(d.t), k.t, newl)))
             return results + [(st2, None)]
         if meth == 'extend' and isinstance(recv, ast.Subscript) and isinstance(recv.value, ast.Attribute) and isinstance(recv.value.value, ast.Name) \
-                and isinstance(getattr(st.env.get(recv.value.value.id), 'ty', None), TRec) \
-                and recv.value.attr in st.env[recv.value.value.id].ty.fields and len(call.args) == 1:
+                and self.field_of(st.env.get(recv.value.value.id), recv.value.attr) and len(call.args) == 1:
             # x.field[k].extend(L) on a record field holding a dictionary of opaque lists: the entry at k becomes CAT(entry, L)
-            name, fld = recv.value.value.id, recv.value.attr
+            name, fld = recv.value.value.id, self.field_of(st.env.get(recv.value.value.id), recv.value.attr)
             owner = st.env[name]
             fty = owner.ty.fields[fld]
             base = V(fty, owner.ty.get(fld, owner.t))
@@ -677,6 +675,18 @@ class Executor(Engine):
 
     def st_Continue(self, s, st):
         return [(st, ('continue',))]
+
+    def field_of(self, owner, attr):
+        """the record field an attribute denotes: the field itself, or -- for a read-only property whose accessor contract says it IS the
+        field `_<attr>` -- that field"""
+        if not isinstance(getattr(owner, 'ty', None), TRec):
+            return None
+        if attr in owner.ty.fields:
+            return attr
+        q = self.method_qual(owner.ty, attr)
+        if ('_' + attr) in owner.ty.fields and q and self.contracts[q].d.get('property'):
+            return '_' + attr
+        return None
 
     def narrow_union(self, test, br):
         """`if isinstance(x, int|float|str):` on a union-typed local (record with a kind tag and the payload fields i / f / s): inside the
